@@ -55,6 +55,7 @@ CLASSES: dict = {
     # strings
     "str_empty": ("", lambda r: ""),
     "str_int": ("42", lambda r: _digits(r, r.choice([1, 2, 3, 5]))),  # decimal digits, < 10**6: a valid timestamp
+    "str_zero": ("0", lambda r: "0" * r.range(1, 6)),  # isdigit, int() is zero
     "str_negint": ("-7", lambda r: "-" + _digits(r, r.choice([1, 2, 3]))),
     "str_ts": ("1000000000000", lambda r: _digits(r, r.range(13, 15))),  # isdigit, int() lands in int_ts
     "str_bigdigits": ("2000000000000000000", lambda r: r.choice("2345678") + "".join(r.choice("0123456789") for _ in range(18))),  # isdigit, int() lands in int_large
@@ -108,10 +109,62 @@ CLASSES["str_b64_nonutf8"] = (CLASSES["str_b64_nonutf8"][0], _b64_bad)
 CLASS_NAMES = list(CLASSES)
 
 
+# Hand-picked nasty members of each class ("a class is only as good as its nastiest member"): boundaries of the class,
+# the shortest / longest / oddest spelling that still belongs to it.  Index 0 is always the representative.
+# member(cls, k): k < FIXED_SPAN cycles through these, larger k draws a random member.
+NASTY: dict = {
+    "int_pos": [1, 2, 255, 1000, 10**6],
+    "int_neg": [-1, -255, -(10**6)],
+    "int_ts": [10**12 + 1, 10**15],
+    "int_large": [2**60, 2**63 - 1],
+    "int_big": [2**64, 2**100],
+    "int_huge": [10**320, 10**4299],  # 10**4299 has 4300 digits: the longest int str() still prints
+    "int_giant": [10**4300, 10**6000],  # 4301 digits: the shortest int str() refuses
+    "float_zero": [-0.0],
+    "float_pos": [0.5, 5e-324, 1e-300, 999999.5, 1.0],
+    "float_neg": [-0.5, -5e-324, -999999.5, -1.0],
+    "str_int": ["7", "007", "99999", "1"],
+    "str_zero": ["00", "000000"],
+    "str_negint": ["-1", "-007", "-999"],
+    "str_ts": ["9" * 15, "1000000000001"],
+    "str_bigdigits": ["2" + "0" * 18, "8" + "9" * 18],
+    "str_hugeint": ["1" + "0" * 4300, "9" * 4301],  # 4301 characters: one more than MAX_STR_INT
+    "str_float": ["0.5", "1.0", "999.95", "3.", ".5", "1e3", "1E-3"],
+    "str_exp": ["1e309", "9e99999", "1E999"],
+    "str_nan": ["NaN", "-nan", "+nan", "nAn"],
+    "str_inf": ["Infinity", "+inf", "INF", "infinity"],
+    # percent strings: every run length of '%' in front of text, a non-conversion character, and the end of the string
+    "str_pct": ["%", "%%%", "100%%%", "%%%!", "%%%%%", "50% off", "%s", "%d", "%(x", "%(x)", "% (x)s", "a%%b%", "%%% sure", "%\n", "%\u00e9"],
+    "str_fmt_d": ["%(x)d", "%(x)5.2f", "%(x)r", "%(x)", "%(you)s %(x)d", "%%%(x)d", "%(x)d%%%", "%(x)i %(y)x"],
+    "str_fmt_s": ["%(you)s", "%%%(you)s", "%(you)s%%%", "%%(you)s", "%(a)s%(b)s", "%(you)s%", "100%%% %(you)s", "%(\u00fcn\u00ef)s", "%(you)s" * 40],
+    "str_b64": ["YQ==", "aGVsbG8gd29ybGQ="],
+    "str_b64_nonutf8": ["gA==", "wMA=", "/v8="],
+    "str_nonascii": ["\u00e9", "\u4e2d\u6587", "\U0001f600", "e\u0301", "\u0661\u0662x", "\u2028"],
+    "str_surrogate": ["\udfff", "a\udc80b", "\udc00\ud800"],
+    "str_other": ["a", "hello world!", "qxqxqxqxqxqxq", "Hello", "x y z", "hello\n"],
+    "list_int": [[0], [1], [-1, 10**6], [2] * 50, [3, 3, 3]],
+    "list_str": [["hello"], ["a", "a"], ["hello", "Hello"]],
+    "list_numstr": [["0"], ["1", "2"], ["2.5"], ["-1", "1e3"]],
+    "list_mixed": [[None, 1, "a"], ["a", 1, None]],
+    "list_dict": [[{"k": 1, "title": "a"}], [{"k": 1, "title": "a"}, {"k": 1, "title": "b"}], [{"k": 0, "title": ""}, {"k": -1, "title": "x"}]],
+    "list_dict_gap": [[{"j": 2}, {"k": 1}], [{"k": 1}, {}]],
+    "list_infs": [[float("-inf"), float("inf")], [float("inf"), 1, float("-inf")]],
+    "list_nested": [[[1], [2]], [[1, [2, [3]]]], [[], [1]]],
+    "dict": [{"k": 0, "title": ""}, {"k": 1, "title": "x", "z": [1, 2]}],
+    "range": [range(0, 1), range(-3, 3), range(1, 1025)],
+}
+FIXED_SPAN = 64
+
+
+def fixed_members(cls: str) -> list:
+    return [CLASSES[cls][0]] + NASTY.get(cls, [])
+
+
 def member(cls: str, k: int = 0):
     rep, gen = CLASSES[cls]
-    if k == 0 or gen is None:
-        return rep
+    fixed = fixed_members(cls)
+    if k < FIXED_SPAN or gen is None:
+        return fixed[k % len(fixed)]
     return gen(Rng(k, "c02/" + cls))
 
 
